@@ -1,7 +1,4 @@
-import Aqv.Base.Proto
-open Aqv Aqv.Proto
-
-/-- stub driver for C02 (answers every case line with "bad-op"); replaced when the property is built. -/
-def handle (l : String) : String := let _ := l; "bad-op\tagree"
-
-def main : IO Unit := runLines handle
+import Aqv.Model.ChainReplay
+/-! Model driver of property C02: replays every harness history on `Aqv.Model.Chain`; compares fork choice, total
+    difficulties and the stored / validated sets (see `Aqv.Model.ChainReplay.projC02`). -/
+def main : IO Unit := Aqv.Proto.runLines (Aqv.ChainReplay.handle "C02")
